@@ -22,7 +22,7 @@ EXTREMES = {
     "Int8": [0, 1, -1, 127, -128],
     "UInt8": [0, 1, 255, 128],
 }
-STRINGS = ["", "a", "abcdefg", "abcdefgh", "abcdefghi", "héllo", "日本語", "x" * 17]
+STRINGS = ["", "a", "abcdefg", "abcdefgh", "abcdefghi", "héllo", "日本語", "x" * 17, "日本語の", "é" * 7]
 
 
 class Gen:
@@ -50,7 +50,12 @@ class Gen:
         if k == "string":
             i = self.n()
             if self.variant == 0:
-                return "s%d" % i + "x" * (i % 5)
+                # short ASCII / long ASCII (several slots) / multi-byte heavy (bytes >> characters)
+                if i % 3 == 1:
+                    return "s%d" % i + "x" * (i % 5)
+                if i % 3 == 2:
+                    return "name.%d." % i + "quadrupole.left"[: 9 + i % 7]
+                return "\u00fc%d" % i + "\u65e5\u672c" * (i % 2 + 2)
             return STRINGS[(i + self.variant) % len(STRINGS)]
         if k == "struct":
             return {fn: self.sample(ft, depth + 1) for fn, ft in t[2]}
